@@ -95,6 +95,8 @@ func c16Scenario(p c16Params) *explore.Scenario {
 				lines = append(lines, ":irc.example 433")
 			case "builtin-cap":
 				lines = append(lines, ":irc.example CAP *")
+			case "builtin-stjoin":
+				lines = append(lines, ":o!u@h JOIN") // state tracking on: the tracker's JOIN handler indexes Args[0]
 			}
 		}
 	}
@@ -185,7 +187,10 @@ func c16Scenario(p c16Params) *explore.Scenario {
 			vx.Observe("ev", fmt.Sprintf("good bg-x e%d", i))
 		}))
 		// user handlers on the verbs whose built-in handler panics: they must still run
-		for _, v := range []string{"PING", "433", "CAP"} {
+		if p.Who == "builtin-stjoin" {
+			c.EnableStateTracking()
+		}
+		for _, v := range []string{"PING", "433", "CAP", "JOIN"} {
 			v := v
 			c.HandleFunc(v, func(conn *client.Conn, line *client.Line) { vx.Observe("ev", "good fg-on-"+v) })
 			c.HandleBG(v, client.HandlerFunc(func(conn *client.Conn, line *client.Line) { vx.Observe("ev", "good bg-on-"+v) }))
@@ -202,6 +207,13 @@ func c16Scenario(p c16Params) *explore.Scenario {
 		vc.SendLines(lines...)
 		vc.SendLines("PING :still-alive")
 		vx.Quiesce()
+		if p.Who == "builtin-stjoin" {
+			// the tracker can still be switched off afterwards, and the session goes on
+			c.DisableStateTracking()
+			vc.SendLines("PING :after-disable")
+			vx.Quiesce()
+			vx.Observe("ev", fmt.Sprintf("after-disable pong=%v", HasLine(vc.Lines(), "PONG :after-disable")))
+		}
 		vx.Observe("ev", fmt.Sprintf("end connected=%v", c.Connected()))
 		vc.EOF()
 		vx.Quiesce()
@@ -263,7 +275,10 @@ func c16Scenario(p c16Params) *explore.Scenario {
 			}
 		}
 		if builtin {
-			v := map[string]string{"builtin-ping": "PING", "builtin-433": "433", "builtin-cap": "CAP"}[p.Who]
+			v := map[string]string{"builtin-ping": "PING", "builtin-433": "433", "builtin-cap": "CAP", "builtin-stjoin": "JOIN"}[p.Who]
+			if p.Who == "builtin-stjoin" && cnt("after-disable pong=true") != 1 {
+				bad("later-event-not-delivered", "after a tracker handler had panicked, DisableStateTracking() did not return or the PING sent after it was not answered")
+			}
 			// the PING verb also receives the final well-formed PING
 			want := 1
 			if v == "PING" {
@@ -556,7 +571,7 @@ func c16TrackingRaceScenario(custom bool) *explore.Scenario {
 func init() {
 	Register(&Prop{
 		ID:   "C16",
-		Rule: "event sequences of 2-4 PRIVMSGs with three foreground and two background user handlers; at one event one handler misbehaves: user foreground / user background panics with a string, error or struct value or a nil pointer whose Error / String method would panic, a built-in handler (PING without token, 433 without arguments, CAP with one argument) panics on its own input, or a background handler blocks for ever (next to a well-behaved one, or alone on its verb); default LogPanic or a custom recovery hook (set in the Config given to Client, or through Config() after all handlers are registered); optionally a foreground handler that registers a background handler at every event and removes the previous one; the panic raised 40 / 300 calls below the handler; the Config a struct literal with nil Me / empty nick / empty ident (Client() repairs the identity); a handler registered first on REGISTER / CONNECTED / DISCONNECTED that panics at both of two connections; every execution within the deviation budgets; distinct = distinct canonical observation per scenario",
+		Rule: "event sequences of 2-4 PRIVMSGs with three foreground and two background user handlers; at one event one handler misbehaves: user foreground / user background panics with a string, error or struct value or a nil pointer whose Error / String method would panic, a built-in handler (PING without token, 433 without arguments, CAP with one argument; with tracking on a JOIN without channel, followed by DisableStateTracking) panics on its own input, or a background handler blocks for ever (next to a well-behaved one, or alone on its verb); default LogPanic or a custom recovery hook (set in the Config given to Client, or through Config() after all handlers are registered); optionally a foreground handler that registers a background handler at every event and removes the previous one; the panic raised 40 / 300 calls below the handler; the Config a struct literal with nil Me / empty nick / empty ident (Client() repairs the identity); a handler registered first on REGISTER / CONNECTED / DISCONNECTED that panics at both of two connections; every execution within the deviation budgets; distinct = distinct canonical observation per scenario",
 		Assumptions: []string{
 			"interleavings at synchronisation/channel/socket granularity (DESIGN.md 3.8); statement granularity on Conn in the one scenario that races DisableStateTracking() against the built-in 001 handler",
 			"panic(nil) is left out: its meaning depends on the module's go directive, which the instrumented copy changes",
@@ -584,7 +599,7 @@ func init() {
 					}
 				}
 			}
-			for _, who := range []string{"builtin-ping", "builtin-433", "builtin-cap"} {
+			for _, who := range []string{"builtin-ping", "builtin-433", "builtin-cap", "builtin-stjoin"} {
 				for _, custom := range []bool{false, true} {
 					add(c16Params{Who: who, At: 0, Value: "runtime", Custom: custom, NEvents: 2})
 					if tier == "thorough" {
